@@ -182,6 +182,39 @@ let rec show_sel = function
 and show_sl (SL (sels, isnot, ishtml)) =
   "(sl (" ^ Stdlib.String.concat " " (List.map show_sel sels) ^ ") " ^ b01 isnot ^ " " ^ b01 ishtml ^ ")"
 
+(* ---- search aid (NOT part of the model): size of the full backtracking tree of an expression on a subject,
+   counted with a cap so that exponential cases stop early.  Mirrors Regex.ends (all ends are enumerated). *)
+exception Cap_reached
+exception Found_one
+let work_count (r : re) (s : n list) (start : int) (cap : int) : int =
+  let arr = Array.of_list (List.map int_of_n s) in
+  let n = Array.length arr in
+  let cnt = ref 0 in
+  let tick () = incr cnt; if !cnt > cap then Stdlib.raise Cap_reached in
+  let mem c cs = List.exists (fun (a, b) -> int_of_n a <= c && c <= int_of_n b) cs in
+  let dec = function None -> None | Some O -> Some O | Some (S m) -> Some m in
+  let rec m r i (k : int -> unit) : unit =
+    tick ();
+    match r with
+    | Eps -> k i
+    | Chr cs -> if i < n && mem arr.(i) cs then k (i + 1)
+    | Seq (a, b) -> m a i (fun j -> m b j k)
+    | Alt (a, b) -> m a i k; m b i k
+    | Rep (g, mn, mx, body) -> rep body g (int_of_nat mn) mx i k
+    | Look (neg, r') ->
+      let found = (try m r' i (fun _ -> Stdlib.raise Found_one); false with Found_one -> true) in
+      if found <> neg then k i
+    | Behind (neg, cs) -> let ok = if i > 0 then (mem arr.(i - 1) cs) <> neg else neg in if ok then k i
+    | BehindStart | AtStart -> if i = 0 then k i
+    | AtEnd -> if i = n || (i = n - 1 && arr.(i) = 10) then k i
+    | AtEndStrict -> if i = n then k i
+    | Grp (_, r') -> m r' i k
+  and rep body g mn mx i k =
+    let more () = if mx <> Some O then m body i (fun j -> if j > i then rep body g (max (mn - 1) 0) (dec mx) j k) in
+    if mn > 0 then more () else if g then (more (); k i) else (k i; more ()) in
+  (try m r start (fun _ -> ()) with Cap_reached -> ());
+  !cnt
+
 let cur_tree = ref { t_xml = false; t_isdoc = false; t_root = Str (KText, []) }
 let cur_ns = ref []
 let cur_sl = ref (SL ([], false, false))
@@ -192,6 +225,13 @@ let handle (e : sexp) : Stdlib.String.t =
     (match rmatch (find_pattern (key_ name)) (str_ s) (nat_of_int (int_ i)) with
      | None -> "none"
      | Some (j, caps) -> Printf.sprintf "(some %d %s)" (int_of_nat j) (show_caps caps))
+  | L [A "endscount"; name; i; s] ->
+    string_of_int (int_of_nat (ends_count (find_pattern (key_ name)) (str_ s) (nat_of_int (int_ i))))
+  | L [A "work"; name; i; s; cap] ->
+    string_of_int (work_count (find_pattern (key_ name)) (str_ s) (int_ i) (int_ cap))
+  | L [A "work_re"; r; i; s; cap] -> string_of_int (work_count (re_ r) (str_ s) (int_ i) (int_ cap))
+  | L [A "endscount_re"; r; i; s] ->
+    string_of_int (int_of_nat (ends_count (re_ r) (str_ s) (nat_of_int (int_ i))))
   | L [A "research"; name; s] ->
     (match rsearch (find_pattern (key_ name)) (str_ s) with
      | None -> "none"
